@@ -765,17 +765,26 @@ func explainAliasedExpr(sb *strings.Builder, n *ast.AliasedExpr, depth int) {
 	case *ast.UnaryExpr:
 		// Handle negated numeric literals - output as Literal instead of Function negate
 		// When an aliased expression is a negated literal, output as negative Literal
+		// (as without alias: -1 folds, -(1) stays a negate function, -0 is UInt64_0)
 		if e.Op == "-" {
-			if lit, ok := e.Operand.(*ast.Literal); ok {
+			if lit, ok := e.Operand.(*ast.Literal); ok && !lit.Parenthesized {
 				switch lit.Type {
 				case ast.LiteralInteger:
 					// Convert negated integer to negative literal
 					switch val := lit.Value.(type) {
 					case int64:
-						fmt.Fprintf(sb, "%sLiteral Int64_%d (alias %s)\n", indent, -val, escapeAlias(n.Alias))
+						if val == 0 {
+							fmt.Fprintf(sb, "%sLiteral UInt64_0 (alias %s)\n", indent, escapeAlias(n.Alias))
+						} else if val < 0 {
+							fmt.Fprintf(sb, "%sLiteral UInt64_%d (alias %s)\n", indent, -val, escapeAlias(n.Alias))
+						} else {
+							fmt.Fprintf(sb, "%sLiteral Int64_%d (alias %s)\n", indent, -val, escapeAlias(n.Alias))
+						}
 						return
 					case uint64:
-						if val <= 9223372036854775808 {
+						if val == 0 {
+							fmt.Fprintf(sb, "%sLiteral UInt64_0 (alias %s)\n", indent, escapeAlias(n.Alias))
+						} else if val <= 9223372036854775808 {
 							// Value fits in int64 when negated
 							// Note: -9223372036854775808 is int64 min, so 9223372036854775808 is included
 							fmt.Fprintf(sb, "%sLiteral Int64_-%d (alias %s)\n", indent, val, escapeAlias(n.Alias))
